@@ -43,11 +43,7 @@ class FileHeaderItem(EFLRItem):
         if len(header_id) > self.header_id_length_limit:
             raise ValueError(f"'header_id' length should not exceed {self.header_id_length_limit} characters")
 
-        if not isinstance(sequence_number, int):
-            raise TypeError(f"'sequence_number' should be an integer; got {type(sequence_number)}: {sequence_number}")
-        if not 0 < sequence_number <= self.max_sequence_number:
-            raise ValueError(f"Sequence number must be a positive integer not larger than {self.max_sequence_number}; "
-                             f"got {sequence_number}")
+        self._check_sequence_number(sequence_number)
 
         if not isinstance(identifier, str):
             raise TypeError(f"'identifier' should be a str; got {type(identifier)}: {identifier}")
@@ -58,6 +54,16 @@ class FileHeaderItem(EFLRItem):
         self.sequence_number = sequence_number
 
         super().__init__(name=identifier, parent=parent)
+
+    @classmethod
+    def _check_sequence_number(cls, sequence_number: Any) -> None:
+        """Check that the sequence number is a positive integer of at most 10 digits (a bool is not a number here)."""
+
+        if not isinstance(sequence_number, int) or isinstance(sequence_number, bool):
+            raise TypeError(f"'sequence_number' should be an integer; got {type(sequence_number)}: {sequence_number}")
+        if not 0 < sequence_number <= cls.max_sequence_number:
+            raise ValueError(f"Sequence number must be a positive integer not larger than {cls.max_sequence_number}; "
+                             f"got {sequence_number}")
 
     def __repr__(self) -> str:
         return (f"{self.__class__.__name__}(header_id={self.header_id}, sequence_number={self.sequence_number}, "
@@ -85,6 +91,7 @@ class FileHeaderItem(EFLRItem):
 
         bts += pack_ushort(int('00100001', 2))
         bts += pack_ushort(10)
+        self._check_sequence_number(self.sequence_number)  # (it may have been re-assigned since the item was created)
         bts += get_ascii_bytes(str(self.sequence_number), 10, justify_left=False)
         bts += pack_ushort(int('00100001', 2))
         bts += pack_ushort(65)
